@@ -261,7 +261,10 @@ def match_packages(
         # with the all-arches candidates
         allarches_kw: list[str] = []
         if allarches and stable and filter_arch:
-            allarches_kw = sort_keywords(suggested_keywords(repo, pkg, stable=True))
+            # an arch the repo no longer knows is nobody's to stabilize
+            allarches_kw = sort_keywords(
+                suggested_keywords(repo, pkg, stable=True) & valid_arches
+            )
 
         if only_new:
             keywords = [
